@@ -98,7 +98,7 @@ def ref_fft(x, inverse, center, ortho, oshape, axes):
 def gen_axes(rng, nd, subset=None):
     """a list of distinct axes (mod nd), random signs and order"""
     if subset is None:
-        subset = rng.sample(range(nd), rng.randint(1, nd))
+        subset = rng.sample(range(nd), rng.choice([0] + list(range(1, nd + 1)) * 3))
     ax = [a if rng.random() < 0.5 else a - nd for a in subset]
     rng.shuffle(ax)
     return ax
@@ -140,6 +140,10 @@ def corpus_cases():
         c.append(dict(inverse=inv, center=False, ortho=True, ish=[3, 4], osh=[5, 3], axes=[1, 0], dtype="complex128"))
         c.append(dict(inverse=inv, center=False, ortho=False, ish=[7], osh=None, axes=[-1], dtype="float32"))
         c.append(dict(inverse=inv, center=True, ortho=True, ish=[1], osh=None, axes=None, dtype="complex128"))
+        # the empty subset of axes: nothing is transformed (after the centre resize)
+        c.append(dict(inverse=inv, center=True, ortho=True, ish=[3, 2], osh=None, axes=[], dtype="complex128"))
+        c.append(dict(inverse=inv, center=True, ortho=False, ish=[4], osh=[6], axes=[], dtype="complex64"))
+        c.append(dict(inverse=inv, center=False, ortho=True, ish=[2, 3], osh=None, axes=[], dtype="complex128"))
         c.append(dict(inverse=inv, center=True, ortho=True, ish=[1, 6], osh=[2, 7], axes=None, dtype="complex128"))
     return c
 
@@ -265,7 +269,7 @@ def run(ctx):
     cases = list(corpus_cases())
     # systematic part: every axes subset of every rank 1..4, both centre modes
     for nd in (1, 2, 3, 4):
-        subsets = [None] + [s for k in range(1, nd + 1) for s in itertools.combinations(range(nd), k)]
+        subsets = [None] + [s for k in range(0, nd + 1) for s in itertools.combinations(range(nd), k)]
         for s in subsets:
             for _ in range(ctx.n(2, 6)):
                 cases.append(gen_case(rng, maxlen, ctx.n(200, 1200), nd=nd, subset=s))
